@@ -121,6 +121,36 @@ def run(chk):
               'Nest = "=" >> (Word |> `lambda s: _vn(s)`)\nWord = /[ab]+/\n')
     tcases.append({'id': len(tcases), 'desc': nested, 'cfg': {},
                    'runs': [['start', T(x), 0] for x in ('ab=ba?', 'ab=ba!', 'ab=ba', 'a=b=', 'ab')], 'nrules': 3})
+    # a parameterless rule that is passed as an argument AND referenced directly at the same position; an ignored
+    # rule that is also referenced explicitly.  With probes (inline Python in the rule bodies) and without.
+    PR = '(Expect(/(?s).*/) |> `lambda r_: _vprobe(%r, len(r_))`) >> '
+    HEAD = '```\nfrom sourcer_verif_rt import probe as _vprobe\n```\n'
+    hand = [
+        ('start = [Ahead(Name), Name, (Tail(Group) | Group)?]\nAhead(p) = Expect(p)\nTail(p) = p << "!"\n'
+         'Name = {Name}/[ab]+/\nGroup = {Group}("(" >> (Tail(Group) | Group | Name) << ")")\n',
+         ['ab(a)', 'ab((b))!', 'a(((ab)))', 'ab', 'b(', 'ab(a)!'], 5),
+        ('ignore Space = {Space}/[ ]+/\nstart = (Word | Checked)+\nWord = {Word}/[ab]+/\n'
+         'Checked = {Checked}(Backtrack(1) >> Space >> "-" >> Word)\n',
+         ['a b', 'ab -a b', 'a  -b -a', ' a', 'a - b', 'ab -ab  -b '], 5),
+    ]
+    # In a grammar with ignore declarations a probe must not be a literal (a literal is followed by the skip, and
+    # an empty-matching literal inside an ignored rule would re-enter _ignored at the same position).  There the
+    # probe reads the position register of the generated function directly; if that name ever changes the family
+    # is skipped (noted in the evidence), never reported.
+    PRPOS = '`_vprobe_pos(%r, _pos)` >> '
+    HEADPOS = ('```\nfrom sourcer_verif_rt import mark as _vmark\n'
+               'def _vprobe_pos(rule, pos):\n    _vmark("body", rule=rule, pos=pos)\n```\n')
+    for tmpl, inputs, nr in hand:
+        plain_desc = tmpl
+        with_ignore = 'ignore ' in tmpl
+        probed = (HEADPOS if with_ignore else HEAD) + tmpl
+        for nm in ('Name', 'Group', 'Space', 'Word', 'Checked'):
+            plain_desc = plain_desc.replace('{%s}' % nm, '')
+            probed = probed.replace('{%s}' % nm, (PRPOS if with_ignore else PR) % nm)
+        tcases.append({'id': len(tcases), 'desc': plain_desc, 'cfg': {}, 'runs': [['start', T(x), 0] for x in inputs],
+                       'nrules': nr})
+        tcases.append({'id': len(tcases), 'desc': probed, 'cfg': {'probes': True, 'nrules': nr, 'posprobe': with_ignore},
+                       'runs': [['start', T(x), 0] for x in inputs], 'nrules': nr})
     # long inputs (memo tables with tens of thousands of entries), validated in projection on the rare rules
     longg = ('start = [Header, Items, "."] | [Header, Items, ";"] | [Header, Items]\n'
              'Header = "h:"\nItems = Item*\nItem = "a" | "b"\n')
@@ -146,6 +176,9 @@ def run(chk):
         rec = recs[c['id']]
         if rec['build'][0] != 'ok':
             continue     # construction problems are C01's business
+        if (c.get('cfg') or {}).get('posprobe') and any(o[0] == 'exc' and o[1] == 'NameError' for o in rec['obs']):
+            chk.notes['posprobe'] = 'the position register is not called _pos any more: ignore-grammar probe family skipped'
+            continue
         reclist.append(rec)
         hits = sum(1 for e in rec['events'] if e['ev'] == 'hit')
         chk.count([rec['desc']], hits > 0)
